@@ -691,7 +691,7 @@ func main() {
 	}
 	repo, out := os.Args[1], os.Args[2]
 	header := "(* GENERATED by tools/genmw from middleware.go on every run -- do not edit. *)\n" +
-		"Require Import Base.Bytes Gen.Tables Model.Util Model.Headers Model.Methods Model.Origins Model.Pattern Model.Radix Model.Config Model.CfgRt Model.Serve Model.MwRt.\nOpen Scope bool_scope.\n\n"
+		"Require Import Base.Bytes Gen.Tables Model.Util Model.Headers Model.Methods Model.Origins Model.Pattern Model.Radix Model.Netip Model.CfgErrors Model.Config Model.CfgRt Model.Serve Model.Mw Model.MwRt.\nOpen Scope bool_scope.\n\n"
 	var sb strings.Builder
 	sb.WriteString(header)
 	errMsg := ""
@@ -739,6 +739,7 @@ func main() {
 			fail(nil, "Wrap not found")
 		}
 		sb.WriteString(translateWrap(decls["Wrap"]))
+		sb.WriteString(translateMethods(decls))
 	}()
 	text := sb.String()
 	if errMsg != "" {
